@@ -245,6 +245,20 @@ CHECKS = {
         technique="Lean 4 proof of the term identities + exact-rational correspondence + independent numerical reference on the real right-hand side",
         ref="5/C13",
     ),
+    "C20": dict(
+        text="Theorems (Lean 4): for ANY Lagrange coefficients f, g, gdot with g != 0 that a Lambert iteration ends with, the velocities _calculateVelocities returns close the arc "
+             "exactly: propagating (r1, v1) with the coefficient set completed by fdot = (f*gdot - 1)/g (so f*gdot - fdot*g = 1, the Kepler solver's own acceptance test) arrives at r2 "
+             "with the returned v2; both ends carry the angular momentum (r1 x r2)/g and both velocities lie in the transfer plane; radarObs2eciPosition inverts the radar "
+             "measurement model for orthogonal frame matrices (with a witness that a non-transposed matrix does not) and the range/azimuth/elevation part round-trips (C04); the "
+             "transfer-direction rule, the single-pass rule and the choice of the stored observation are characterised exactly. Tied to the code by correspondence of "
+             "_calculateVelocities on the coefficients recovered from each real solution, and by the real solvers on arcs generated by the real Kepler propagator (both senses, "
+             "e <= 0.7, 2-98 % of a period, extra weight on long-way half-period arcs), re-propagated; the real observation inversion for ground and space sensors; the real "
+             "LambertIOD (both solvers) fed from a real in-memory database with two noise-free radar observations 2-39.5 % of a period apart.",
+        note=BASE_TB + "convergence of the universal-variable and Battin iterations is exercised on the real code only (arrival within 1e-3 km + 1e-6 km per second of flight); arcs "
+             "are generated and re-propagated with the code's own Kepler solver; transfer angles within 8 deg of 0/180/360 are skipped and counted.",
+        technique="Lean 4 proof of arc closure and observation inversion + real solvers on generated arcs + real IOD with a real database",
+        ref="5/C20",
+    ),
     "C11": dict(
         text="Theorems (Lean 4, corollaries of C04/C05 for the Terrestrial model): the state the site reports, converted back with the reduction of the same instant, is exactly "
              "the configured Earth-fixed position at rest; the anchor computed at construction is the configured geodetic point; the inertial velocity is PNR(omega x W r) with "
